@@ -132,6 +132,11 @@ def _gen_bip(rng):
             # make it likely that R divides L*d
             cands = [x for x in range(0, R + 1) if (L * x) % R == 0]
             d = rng.choice(cands)
+        if rng.random() < 0.08:
+            # dense and not so small: the stub-matching sampler gets stuck
+            # again and again unless it is clever about it
+            L = R = rng.choice([12, 16, 20, 22, 24])
+            d = R - rng.choice([1, 1, 2, 3])
         args = [L, R, d]
     elif c == "shift":
         k = rng.choice([0, 1, 2, 3])
